@@ -188,3 +188,26 @@ Proof.
   apply andb_false_iff in H. destruct H as [H|H]; [|apply IH; auto].
   apply negb_false_iff in H. apply H2. apply in_triple_b. exact H.
 Qed.
+
+(** since fix c9a1e70 (targets collected in an insertion-ordered dict) the
+    fetch order is the order of first occurrence of the nodes in the selector
+    answers: no set oracle is left *)
+Lemma targets_first_occurrence c G O pass m :
+  targets c G O pass m =
+  dedup str_eqb (flat_map (sel_answers G O (match m with MShapeMap _ => 1 | _ => pass end) (c_tau c)
+                                       (match m with MShapeMap _ => (-1)%Z | _ => eff_limit c end))
+                          (match m with
+                           | MClasses cl => class_items cl
+                           | MAll => class_items (all_classes G O pass (c_tau c))
+                           | MShapeMap items => items
+                           end)).
+Proof. destruct m; reflexivity. Qed.
+
+Lemma fetch_order_map c G O items :
+  ord_ok O -> dom c G -> forallb sel_plain items = true ->
+  let T := dedup str_eqb (flat_map (sel_answers G O 1 (c_tau c) (-1)) items) in
+  queries (r_p2 (run c (MShapeMap items) G O)) =
+  map (fun a => (QPO, a)) T ++ (if c_inverse c then map (fun a => (QSP, a)) T else []).
+Proof.
+  intros Ho Hd Hit. destruct (triples_map c G O items Ho Hd Hit) as [_ [_ [_ Q]]]. exact Q.
+Qed.
